@@ -89,6 +89,7 @@ class ServerPeer:
         self.sut = sut
         self.requests = []
         self.links = []
+        self.hold_posts = False      # slow network: a POST does not reach the server until the harness clears this flag
 
     @staticmethod
     def _split(url):
@@ -102,6 +103,8 @@ class ServerPeer:
         path, q = self._split(url)
         if isinstance(body, str):
             body = body.encode('utf-8')
+        if method == 'POST' and self.hold_posts:
+            blocker(lambda: not self.hold_posts, None)
         r = self.sut.request(method, q, {kk: vv for kk, vv in (headers or {}).items() if kk.lower() != 'content-type'}, body or b'')
         deadline = None if timeout is None else k.now + timeout
         if not blocker(lambda: r.done, deadline):
